@@ -1,7 +1,7 @@
 //! One protocol operation executed against the real crate.
 
 use crate::cc;
-use crate::elem::{closure_call, Elem, Gen, Tracked};
+use crate::elem::{closure_call, Elem, Gen};
 use crate::ledger::*;
 use circular_buffer::{CircularBuffer, Iter, IterMut};
 use std::cmp::Ordering;
@@ -465,16 +465,92 @@ pub fn cmp_nm<const N: usize, const M: usize, T: Elem>(
     }
 }
 
-pub fn from_array_nm<const N: usize, const M: usize>(
+pub fn from_array_nm<const N: usize, const M: usize, T: Elem>(
     vals: &[u32],
-) -> Result<CircularBuffer<N, Tracked>, ()> {
+) -> Result<CircularBuffer<N, T>, ()> {
     let mut i = 0;
-    let arr: [Tracked; M] = std::array::from_fn(|_| {
-        let t = Tracked::given(vals[i]);
+    let arr: [T; M] = std::array::from_fn(|_| {
+        let t = T::given(vals[i]);
         i += 1;
         t
     });
-    guard(move || cc!(CircularBuffer::<N, Tracked>::from(arr)))
+    guard(move || cc!(CircularBuffer::<N, T>::from(arr)))
+}
+
+/// `from_array` for the kinds with identity: N in 0..=5, M in 0..=11
+pub fn from_array_table<const N: usize, T: Elem>(
+    vals: &[u32],
+) -> Option<Result<CircularBuffer<N, T>, ()>> {
+    if N > 5 {
+        return None;
+    }
+    macro_rules! go {
+        ($($m:literal)*) => {
+            match vals.len() {
+                $( $m => Some(from_array_nm::<N, $m, T>(vals)), )*
+                _ => None,
+            }
+        };
+    }
+    go!(0 1 2 3 4 5 6 7 8 9 10 11)
+}
+
+/// `eq M r v…` for the kinds with identity: M == N, or N and M in 0..=5
+pub fn eq_table<const N: usize, T: Elem>(
+    buf: &CircularBuffer<N, T>,
+    m: usize,
+    r: usize,
+    vals: &[u32],
+    ret: &mut String,
+) -> bool {
+    if m == N {
+        eq_nm::<N, N, T>(buf, r, vals, ret);
+        return true;
+    }
+    if N > 5 {
+        return false;
+    }
+    macro_rules! go {
+        ($($m:literal)*) => {
+            match m {
+                $( $m => { eq_nm::<N, $m, T>(buf, r, vals, ret); true } )*
+                _ => false,
+            }
+        };
+    }
+    go!(0 1 2 3 4 5)
+}
+
+/// `cmp M r v…` for the kinds with identity: M == N, or N and M in 0..=5
+pub fn cmp_table<const N: usize, T: Elem>(
+    buf: &CircularBuffer<N, T>,
+    m: usize,
+    r: usize,
+    vals: &[u32],
+    ret: &mut String,
+) -> bool {
+    if m == N {
+        cmp_nm::<N, N, T>(
+            buf,
+            r,
+            vals,
+            ret,
+            Some(|a: &CircularBuffer<N, T>, b: &CircularBuffer<N, T>| Ord::cmp(a, b)),
+        );
+        return true;
+    }
+    if N > 5 {
+        return false;
+    }
+    macro_rules! go {
+        ($($m:literal)*) => {
+            match m {
+                $( $m => { cmp_nm::<N, $m, T>(buf, r, vals, ret, None); true } )*
+                _ => false,
+            }
+        };
+    }
+    go!(0 1 2 3 4 5)
 }
 
 /// the array / reference flavours of `PartialEq` against a slice must agree with `expect`
@@ -942,9 +1018,6 @@ pub fn run_op<const N: usize, T: Elem>(
                 Some(v) => v,
                 None => bad!(),
             };
-            if T::KIND != b't' || N > 5 || vals.len() > 11 {
-                return OpRes::Bare;
-            }
             match T::from_array::<N>(&vals) {
                 None => return OpRes::Bare,
                 Some(Ok(nb)) => {
@@ -1152,10 +1225,13 @@ pub fn check_views<const N: usize, T: Elem>(buf: &CircularBuffer<N, T>) -> Optio
     if size > N {
         return Some("size>N");
     }
-    if T::KIND == b't' {
+    if T::HAS_ID {
         // every element in the window must be alive, owned by the buffer, and there only once
         for i in 0..size {
             let (id, _) = unsafe { T::raw(base.add(slot_at(start, i, N))) };
+            if is_held(id) {
+                return Some("held-element-in-window");
+            }
             if !is_live(id) {
                 return Some("dead-element-in-window");
             }
